@@ -90,6 +90,26 @@ func apiMatrix(rng *rand.Rand, cur uint64, known []byte) []apiReq {
 		apiReq{"api", "POST", "/events/bulk", str(`{"Events":[` + strings.Join(big, ",") + `]}`), "huge_bulk", 300},
 		apiReq{"api", "POST", "/events/bulk", str(`{"Events":["` + ev() + `"]}`), "bulk_of_one", 1},
 	)
+	// the same event repeated inside one batch (adjacent or not, twice to many times) and an
+	// event that an earlier request already added
+	e1, e2, e3 := ev(), ev(), ev()
+	kN := 2 + rng.Intn(7)
+	rep := func(e string, k int) string {
+		x := make([]string, k)
+		for i := range x {
+			x[i] = `"` + e + `"`
+		}
+		return strings.Join(x, ",")
+	}
+	reqs = append(reqs,
+		apiReq{"api", "POST", "/events/bulk", str(`{"Events":[` + rep(e1, 2) + `]}`), "bulk_dup2", 2},
+		apiReq{"api", "POST", "/events/bulk", str(`{"Events":[` + rep(e2, 3) + `]}`), "bulk_dup3", 3},
+		apiReq{"api", "POST", "/events/bulk", str(`{"Events":[` + rep(e3, kN) + `]}`), "bulk_dupN", kN},
+		apiReq{"api", "POST", "/events/bulk", str(`{"Events":["` + e1 + `","` + ev() + `","` + e1 + `","` + e2 + `","` + e1 + `","` + e2 + `"]}`), "bulk_dup_interleaved", 6},
+		apiReq{"api", "POST", "/events/bulk", str(`{"Events":["",""` + `,""]}`), "bulk_of_3_empty_events", 3},
+		apiReq{"api", "POST", "/events", str(`{"Event":"` + b64(symhash.EventFor(known)) + `"}`), "readd_known", 1},
+		apiReq{"api", "POST", "/events/bulk", str(`{"Events":["` + b64(symhash.EventFor(known)) + `","` + b64(symhash.EventFor(known)) + `","` + b64(symhash.EventFor(known)) + `"]}`), "bulk_readd_known3", 3},
+	)
 	// proofs
 	vers := []string{"0", fmt.Sprint(cur), fmt.Sprint(cur + 1), "9223372036854775808", "18446744073709551615", "-1", "1.5", "18446744073709551616"}
 	for _, v := range vers {
